@@ -1,6 +1,6 @@
 (* C09 -- failures surface only as InverterError, with a correct consecutive-failure count. *)
 From Coq Require Import List Bool Arith.
-From GW Require Import Proto ProtoEvolves ProtoProps ProtoNoExc FailCount FailCountProofs Callbacks CallbackGen CallbackRefine.
+From GW Require Import Proto ProtoEvolves ProtoProps ProtoNoExc FailCount FailCountProofs Callbacks CallbackGen CallbackRefine Coroutines CoroutineGen CoroutineRefine.
 Import ListNotations.
 
 (* the count carried by the RequestFailedException of a failing request = failed requests since the last successful one
@@ -36,6 +36,10 @@ Proof. exact udp_error_received_refined. Qed.
 Theorem C09_tcp_error_received_is_the_model : forall s l, l_arg l = XOSError -> runm tcp_error_received s l = error_received s.
 Proof. exact tcp_error_received_refined. Qed.
 
+(* the exceptions execute() converts into RequestFailedException are exactly those its except clause names in the current source *)
+Theorem C09_execute_catches_is_the_model : forall e, (match classify e with OFailed => true | _ => false end) = existsb (isinstance e) (ex_caught execute_shape).
+Proof. exact execute_catches_refined. Qed.
+
 Print Assumptions C09_reported_count.
 Print Assumptions C09_first_failure_after_success_reports_one.
 Print Assumptions C09_exceptions_are_mapped.
@@ -44,3 +48,4 @@ Print Assumptions C09_no_exception_in_loop_callbacks.
 Print Assumptions C09_loop_exception_is_expressible.
 Print Assumptions C09_udp_error_received_is_the_model.
 Print Assumptions C09_tcp_error_received_is_the_model.
+Print Assumptions C09_execute_catches_is_the_model.
